@@ -267,7 +267,9 @@ theorem immediate_finish_guard (k : Nat) :
     `start-after-parent-ended` (a child whose StartFlow was still queued when its parent was aborted runs forever). -/
 theorem start_not_under_ended_parent (s : State) (fid : Nat) (known act hasInst : Bool) (source : Nat) (pm : Nat → Bool)
     (s' : State) (src : Nat) (h : processStartFlow s fid known act hasInst source pm = .ok (s', .create src)) :
-    ∃ sf, s.flows source = some sf ∧ ((sf.status ≠ .stopped ∧ sf.status ≠ .finished) ∨ sf.flowId = fid) := by
+    ∃ sf, s.flows source = some sf ∧
+      (((sf.status ≠ .stopped ∧ sf.status ≠ .finished) ∧ (sf.flowId = fid → act = true → 0 < sf.activated)) ∨
+       (sf.flowId = fid ∧ act = true ∧ 0 < sf.activated)) := by
   unfold processStartFlow at h
   split at h
   · cases h
@@ -279,12 +281,31 @@ theorem start_not_under_ended_parent (s : State) (fid : Nat) (known act hasInst 
       split at h
       · cases h
       · next hc =>
+        simp only [Bool.or_eq_true, Bool.and_eq_true, Bool.not_eq_true', beq_iff_eq, not_or, not_and] at hc
+        obtain ⟨hc1, hc2⟩ := hc
         by_cases hid : sf.flowId = fid
-        · exact Or.inr hid
+        · by_cases ha : act = true
+          · right
+            have : 0 < sf.activated := by
+              have := hc2 ⟨hid.symm, ha⟩
+              omega
+            exact ⟨hid, ha, this⟩
+          · left
+            refine ⟨?_, fun _ h => absurd h ha⟩
+            have hnr : ¬(fid = sf.flowId ∧ act = true) := fun h => ha h.2
+            by_cases h1 : sf.status = .stopped
+            · have := hc1 (Or.inl h1); simp at this; exact absurd ⟨this.1, this.2⟩ hnr
+            · by_cases h2 : sf.status = .finished
+              · have := hc1 (Or.inr h2); simp at this; exact absurd ⟨this.1, this.2⟩ hnr
+              · exact ⟨h1, h2⟩
         · left
-          have : (fid == sf.flowId) = false := by simp; exact fun e => hid e.symm
-          simp [this] at hc
-          exact hc
+          refine ⟨?_, fun h => absurd h hid⟩
+          have hnr : ¬(fid = sf.flowId ∧ act = true) := fun h => hid h.1.symm
+          by_cases h1 : sf.status = .stopped
+          · have := hc1 (Or.inl h1); simp at this; exact absurd ⟨this.1, this.2⟩ hnr
+          · by_cases h2 : sf.status = .finished
+            · have := hc1 (Or.inr h2); simp at this; exact absurd ⟨this.1, this.2⟩ hnr
+            · exact ⟨h1, h2⟩
 
 /-- re-activating an already activated flow only increments the reference count of the reference instance,
     registers it as a child of the new activator and announces `FlowStarted`; no instance is created -/
